@@ -271,9 +271,10 @@ def batches_for(prop, tier):
         ]
     if prop == "C07":
         return [
-            Batch("import", "asan", 160 * (24 if q else 400), {"sweep": 1}, "import/single-fault-sweep"),
-            # the enumerated family: 144 small graphs x {permissive, strict} x every applicable single fault (all of it in the thorough tier)
-            Batch("import", "asan", 160 * (36 if q else 288), {"sweep": 1, "enum": 1}, "import/enumerated-small-graphs-single-fault-sweep"),
+            Batch("import", "asan", 200 * (24 if q else 400), {"sweep": 1}, "import/single-fault-sweep"),
+            # the enumerated family: 144 small graphs x {permissive, strict} x {client re-parses its model and drops old importers,
+            # client keeps its model object and its old importers} x every applicable single fault (all of it in the thorough tier)
+            Batch("import", "asan", 200 * (36 if q else 576), {"sweep": 1, "enum": 1}, "import/enumerated-small-graphs-single-fault-sweep"),
             Batch("import", "asan", 3000 if q else 120000, {}, "import/seeded-multi-fault"),
         ]
     if prop == "C09":
@@ -299,7 +300,7 @@ def batches_for(prop, tier):
     if prop == "C15":
         return [
             Batch("annot", "asan", 1500 if q else 40000, {}, "annot/annotator-vs-editor"),
-            Batch("import", "asan", 160 * (8 if q else 100), {"sweep": 1, "sweepseed": 2}, "import/single-fault-sweep"),
+            Batch("import", "asan", 200 * (8 if q else 100), {"sweep": 1, "sweepseed": 2}, "import/single-fault-sweep"),
             Batch("import", "asan", 2500 if q else 60000, {}, "import/seeded-multi-fault"),
             Batch("equiv", "layout", 300 if q else 5000, {}, "equiv/analyser-issues"),
             Batch("purity", "layout", 250 if q else 6000, {"probes": 0, "layoutaux": 0}, "purity/parser-validator-analyser-printer-issues"),
@@ -471,8 +472,8 @@ def write_evidence(prop, tier, seed, results, known_status, violations, wall, re
         for k, v in r["totals"].items():
             totals[k] = totals.get(k, 0) + v
         per_batch.append({"batch": r["label"], "engine": r["engine"], "flavour": r["flavour"], "runs": r["runs"],
-                          "exhaustive_over": ("the enumerated family of 144 small import graphs x 2 importer modes x every applicable single fault (slots beyond a graph's fault list repeat the fault-free run)"
-                                              if r["label"].startswith("import/enumerated") and r["runs"] >= 160 * 288 else None),
+                          "exhaustive_over": ("the enumerated family of 144 small import graphs x 2 importer modes x 2 client habits (model re-parsed and old importers dropped / same model object and old importers kept alive) x every applicable single fault (slots beyond a graph's fault list repeat the fault-free run)"
+                                              if r["label"].startswith("import/enumerated") and r["runs"] >= 200 * 576 else None),
                           "distinct_fingerprints": len(set(r["fps"].values())), "wall_s": round(r["wall"], 2),
                           "runs_per_hour": int(r["runs"] / max(r["wall"], 1e-6) * 3600),
                           "known_finding_hits": r["known_hits"], "violations": len(r["violations"]) + r["dup_violations"]})
